@@ -19,7 +19,11 @@ import (
 // one Client/Handler pair, and of a sender and a receiver goroutine on one
 // stream, explored by the engine's scheduler.
 
-func c13Client(proto int, compress bool) *Client[[]byte, []byte] {
+func c13Client(proto int, compress bool, extra ...ClientOption) *Client[[]byte, []byte] {
+	return c13ClientWith(proto, compress, nil, extra...)
+}
+
+func c13ClientWith(proto int, compress bool, wrap func(HTTPClient) HTTPClient, extra ...ClientOption) *Client[[]byte, []byte] {
 	minBytes := 1 << 20
 	if compress {
 		minBytes = 0
@@ -46,7 +50,12 @@ func c13Client(proto int, compress bool) *Client[[]byte, []byte] {
 	case 2:
 		copts = append(copts, WithGRPCWeb())
 	}
-	return NewClient[[]byte, []byte](&freshTransport{handler: handler}, stackURL, copts...)
+	copts = append(copts, extra...)
+	var tr HTTPClient = &freshTransport{handler: handler}
+	if wrap != nil {
+		tr = wrap(tr)
+	}
+	return NewClient[[]byte, []byte](tr, stackURL, copts...)
 }
 
 // freshTransport serves every request with its own recorder (calls may overlap).
@@ -145,7 +154,7 @@ func HarnessC13PoolReuse() {
 // Handler; the scheduler explores preemptions at every synchronisation point
 // and every pool operation.
 //
-//verif:harness property=C13 stubs=json,wire sched=explore preempt=1 preemptT=1 shard=proto:3
+//verif:harness property=C13 stubs=json,wire sched=explore preempt=1 preemptT=1 shard=proto:3 race=on
 func HarnessC13ConcurrentCalls() {
 	proto := nondetChoice("proto", 3)
 	client := c13Client(proto, nondetBool("compress"))
@@ -169,7 +178,7 @@ func HarnessC13ConcurrentCalls() {
 
 // HarnessC13DuplexStream: one stream, a sender goroutine and a receiver goroutine.
 //
-//verif:harness property=C13 stubs=json,wire sched=explore preempt=2 preemptT=3 shard=proto:3
+//verif:harness property=C13 stubs=json,wire sched=explore preempt=2 preemptT=3 shard=proto:3 race=on
 func HarnessC13DuplexStream() {
 	proto := nondetChoice("proto", 3)
 	handler := NewBidiStreamHandler("/pkg.Svc/Method", func(ctx context.Context, s *BidiStream[[]byte, []byte]) error {
@@ -273,4 +282,129 @@ func HarnessC13ErrorIsolation() {
 	}
 	check(ceA.Meta().Get("X-Call") == before, "an error's metadata is intact after another call ran")
 	check(before == ida || before == "", "the first error carries its own call's headers")
+}
+
+// bombFirstTransport answers the first request with a canned response whose
+// compressed message is small on the wire and large once decompressed; later
+// requests go to the real handler.
+type bombFirstTransport struct {
+	inner HTTPClient
+	proto int
+	calls int
+}
+
+func (t *bombFirstTransport) Do(req *http.Request) (*http.Response, error) {
+	t.calls++
+	if t.calls > 1 {
+		return t.inner.Do(req)
+	}
+	_, _ = io.Copy(io.Discard, req.Body)
+	_ = req.Body.Close()
+	resp := c06CompressedResponse(t.proto, t.proto == 0, []byte{0xC6, 64, 0x41 ^ 0x5A})
+	resp.Request = req
+	return resp, nil
+}
+
+// HarnessC13AfterRejectedMessage: a history, then sharing.  The first call's
+// compressed response fits the client's read limit on the wire (3 bytes) and
+// decompresses to 64 bytes: past the limit of 48, within the limit of 96.
+// Afterwards the pooled objects of that client must still be exclusively
+// owned: two decompressors checked out at the same time are different objects
+// (an object returned to the pool twice would be handed to two concurrent
+// calls), and a later call is served its own response.
+//
+//verif:harness property=C13 stubs=json,wire shard=proto:3
+func HarnessC13AfterRejectedMessage() {
+	proto := nondetChoice("proto", 3)
+	limit := []int{48, 96}[nondetChoice("limit", 2)] // (above the size of a gRPC-Web trailer frame)
+	client := c13ClientWith(proto, true, func(inner HTTPClient) HTTPClient {
+		return &bombFirstTransport{inner: inner, proto: proto}
+	}, WithReadMaxBytes(limit))
+	in := []byte{1}
+	res, errA := client.CallUnary(context.Background(), NewRequest(&in))
+	if limit == 48 {
+		check(errA != nil, "a response that decompresses past the read limit is rejected")
+	} else {
+		check(errA == nil && len(*res.Msg) == 64, "a response that decompresses to within the read limit is accepted")
+	}
+	pool := client.config.CompressionPools["gzip"]
+	check(pool != nil, "the client has a pool for the negotiated compression")
+	if pool == nil {
+		return
+	}
+	d1, e1 := pool.getDecompressor(bytes.NewBuffer(nil))
+	d2, e2 := pool.getDecompressor(bytes.NewBuffer(nil))
+	check(e1 == nil && e2 == nil, "checking out decompressors succeeds")
+	check(d1 != d2, "two calls never share a pooled decompressor, whatever the client has rejected before")
+	_ = pool.putDecompressor(d1)
+	_ = pool.putDecompressor(d2)
+	b := c13Payload("b", 1)
+	_, _, rb := c13Call(client, b)
+	c13Expect(rb, b, "a later call on the same client")
+}
+
+// HarnessC13FullDuplexStream: one bidirectional stream over the full-duplex
+// transport, a sender goroutine and a receiver goroutine running truly
+// concurrently with an echoing handler (each message is answered before the
+// next one is read); explored schedules, happens-before monitor on.
+//
+//verif:harness property=C13 stubs=json,wire sched=explore preempt=1 preemptT=2 shard=proto:3 race=on
+func HarnessC13FullDuplexStream() {
+	proto := nondetChoice("proto", 3)
+	handler := NewBidiStreamHandler("/pkg.Svc/Method", func(ctx context.Context, s *BidiStream[[]byte, []byte]) error {
+		for {
+			m, err := s.Receive()
+			if err != nil {
+				if errors.Is(err, io.EOF) {
+					return nil
+				}
+				return err
+			}
+			out := []byte{(*m)[0] ^ 0xFF}
+			if err := s.Send(&out); err != nil {
+				return err
+			}
+		}
+	}, stackHandlerOptions()...)
+	client := NewClient[[]byte, []byte](&duplexTransport{handler: handler}, stackURL, stackClientOptions(proto)...)
+	stream := client.CallBidiStream(context.Background())
+	x, y := nondetByte("x"), nondetByte("y")
+	var sendErr, recvErr error
+	var got []byte
+	var wg sync.WaitGroup
+	wg.Add(2)
+	go func() {
+		defer wg.Done()
+		for _, v := range []byte{x, y} {
+			m := []byte{v}
+			if err := stream.Send(&m); err != nil {
+				sendErr = err
+				break
+			}
+		}
+		if err := stream.CloseRequest(); err != nil && sendErr == nil {
+			sendErr = err
+		}
+	}()
+	go func() {
+		defer wg.Done()
+		for {
+			m, err := stream.Receive()
+			if err != nil {
+				if !errors.Is(err, io.EOF) {
+					recvErr = err
+				}
+				return
+			}
+			got = append(got, *m...)
+			if len(got) > 3 {
+				return
+			}
+		}
+	}()
+	wg.Wait()
+	check(sendErr == nil && recvErr == nil, "sending and receiving concurrently on one full-duplex stream both succeed")
+	check(len(got) == 2 && got[0] == x^0xFF && got[1] == y^0xFF, "the echoes arrive intact and in order while the sender is still sending")
+	_ = stream.CloseResponse()
+	check(verifQuiesce() == 0, "no goroutine remains after the stream")
 }
